@@ -352,3 +352,13 @@ func (p *prng) perm(n int) []int {
 }
 
 func jsonMarshal(v any) ([]byte, error) { return json.Marshal(v) }
+
+// rare reports true with probability about 1/n. rapid's integer generators favour small values and range
+// boundaries, so "IntRange(0, n) == 0" fires far more often than 1/(n+1); the drawn value is mixed first.
+func rare(t *rapid.T, label string, n uint64) bool {
+	z := rapid.Uint64().Draw(t, label) + 0x9e3779b97f4a7c15
+	z = (z ^ (z >> 30)) * 0xbf58476d1ce4e5b9
+	z = (z ^ (z >> 27)) * 0x94d049bb133111eb
+	z ^= z >> 31
+	return z%n == 0
+}
